@@ -42,7 +42,7 @@ def gen(rng, depth, names=()):
         v = rng.choice([0, 1, 2, 3, 5, 7, 12, 31, 32, 255, 256, 4096, 0x12345678, 0xffffffff, rng.randint(0, 1 << 20), rng.randint(0, 40)])
         if rng.random() < 0.12:
             # a character literal is a number form too ("character literals can also be used"), also inside a larger expression
-            return ('lit', rng.choice([ord(c) for c in "aZ09?! +-*/~_@"]), 'c')
+            return ('lit', rng.choice([ord(c) for c in "aZ09?! +-*/~_@" "#,()'\"[]{}:;"]), 'c')
         return ('lit', v, rng.choice('dxb'))
     k = rng.random()
     if k < 0.12:
